@@ -957,6 +957,8 @@ func startupBin(dir string, cfg *router.Config, expectFail bool, before []suPort
 		return "HANG the binary did not come up"
 	}
 	bound := suBound(before)
+	// the signal handler is installed right after the "up and running" line
+	time.Sleep(250 * time.Millisecond)
 	cmd.Process.Signal(syscall.SIGTERM)
 	select {
 	case err := <-done:
